@@ -4699,6 +4699,10 @@ struct Builder<'a, 'graph> {
   fill_pass_mode: FillPassMode,
   executor: &'a dyn Executor,
   resolved_roots: BTreeSet<ModuleSpecifier>,
+  /// Redirects and package versions the graph was given before the build
+  /// (see `ModuleGraph::fill_from_lockfile`), kept for a restart.
+  lockfile_state:
+    Option<(BTreeMap<ModuleSpecifier, ModuleSpecifier>, PackageSpecifiers)>,
 }
 
 impl<'a, 'graph> Builder<'a, 'graph> {
@@ -4711,6 +4715,9 @@ impl<'a, 'graph> Builder<'a, 'graph> {
       true => FillPassMode::AllowRestart,
       false => FillPassMode::NoRestart,
     };
+    let lockfile_state = (fill_pass_mode == FillPassMode::AllowRestart
+      && !(graph.redirects.is_empty() && graph.packages.is_empty()))
+    .then(|| (graph.redirects.clone(), graph.packages.clone()));
     Self {
       in_dynamic_branch: options.is_dynamic,
       skip_dynamic_deps: options.skip_dynamic_deps,
@@ -4744,6 +4751,7 @@ impl<'a, 'graph> Builder<'a, 'graph> {
       fill_pass_mode,
       executor: options.executor,
       resolved_roots: Default::default(),
+      lockfile_state,
     }
   }
 
@@ -5383,6 +5391,12 @@ impl<'a, 'graph> Builder<'a, 'graph> {
   ) -> LocalBoxFuture<'_, ()> {
     // if restarting is allowed, then the graph will have been empty at the start
     *self.graph = ModuleGraph::new(self.graph.graph_kind);
+    // keep what the lockfile provided: the versions it pins still take part
+    // in version selection after the restart
+    if let Some((redirects, packages)) = &self.lockfile_state {
+      self.graph.redirects = redirects.clone();
+      self.graph.packages = packages.clone();
+    }
     self.state = PendingState::default();
     self.fill_pass_mode = FillPassMode::CacheBusting;
 
